@@ -24,6 +24,14 @@ def _key(obj):
     return hashlib.sha256(json.dumps(obj, sort_keys=True).encode()).hexdigest()[:24]
 
 
+def _write_atomic(path, text):
+    """Several workers may build the same key at once: never expose a truncated source file."""
+    tmp = "%s.%d.tmp" % (path, os.getpid())
+    with open(tmp, "w") as f:
+        f.write(text)
+    os.replace(tmp, path)
+
+
 def compile_units(units, link_flags=(), out_name="lib.so", cc="gcc", kind="shared", post=None, extra_files=None, tag="v1"):
     """units: list of (filename, source_text, [cflags]).  Returns path of the output.
     kind: shared | exe | reloc | objs(only objects; returns dir).  post: list of shell-free
@@ -47,15 +55,13 @@ def compile_units(units, link_flags=(), out_name="lib.so", cc="gcc", kind="share
         for fn, text in (extra_files or {}).items():
             p = os.path.join(sdir, fn)
             os.makedirs(os.path.dirname(p), exist_ok=True)
-            with open(p, "w") as f:
-                f.write(text)
+            _write_atomic(p, text)
         objs = []
         log = ""
         for fn, src, flags in units:
             p = os.path.join(sdir, fn)
             os.makedirs(os.path.dirname(p), exist_ok=True)
-            with open(p, "w") as f:
-                f.write(src)
+            _write_atomic(p, src)
             o = os.path.join(tmpb, os.path.basename(fn) + ".o")
             comp = cc
             if fn.endswith((".cc", ".cpp")):
